@@ -10,7 +10,7 @@ MANIFEST = dict(
     technique="Lean 4 proof over a hand-written state-machine model (constants regenerated from source) + correspondence run with real child processes and /proc observation",
     design="5/C16",
 )
-GEN = ["Timing/grace"]
+GEN = ["Timing/grace", "Shutdown"]
 THEOREMS = [
     "c16_translated",
     "c16_grace_periods",
@@ -30,6 +30,7 @@ THEOREMS = [
     "c16_entry_gap_orphans",
     "c16_returned_value_was_written_by_child", "c16_dead_child_never_answers",
     "c16_eof_is_not_exit", "c16_reuse_sound", "c16_exit_once_leaks_on_reuse", "c16_failed_handshake_cleans_up",
+    "c16_drain_translated", "c16_leave_sound_held",
 ]
 RULE = (
     "real children {well-behaved, exits at step k (k=0..4), ignores SIGTERM after signalling readiness, never reads stdin, "
@@ -427,5 +428,105 @@ class Scenarios(Suite):
             yield dict(case, nreq=1)
 
 
+# =============================================================================== supplementary: the exit decision, exactly
+TERM_DELAYS = [None, 0, 125, 875, 1000, 1125, 1500, 2500]
+KILL_DELAYS = [None, 0, 125, 875, 1000, 1125]
+SELF_EXITS = [None, None, 500, 1000, 1500]
+
+
+def _vt_tie(spec):
+    """the child's death coincides with a deadline of the client: both orders are legitimate"""
+    t, k, s = spec.get("term_delay"), spec.get("kill_delay"), spec.get("self_exit")
+    return t in (1000, 2000) or s in (1000, 2000) or (k is not None and 1000 + k == 2000) or (t is not None and s is not None and t == s)
+
+
+class ExitTrace(Suite):
+    """`__aexit__` / `_terminate_process` / `_drain_stdout` under virtual time against a scripted process: which
+    signals at which instant, how long, waited for or not — against `Model.Shutdown.leave` (grace periods and drain
+    bound regenerated).  The ORACLE demands the property text (bounded; waited for whenever SIGKILL works); the
+    comparison of the signal trace is SUPPLEMENTARY (a client that, say, closed stdin first and waited would satisfy
+    the property with another trace): differences go to the evidence notes."""
+    name = "exit-trace"
+
+    def __init__(self):
+        self.mismatches = []
+
+    def cases(self, ctx, budget):
+        import itertools
+        rng = ctx.sub_rng("c16-vt", budget)
+        full = []
+        for ex, t, k, held, opened, se, p, tie in itertools.product(
+                (False, True), TERM_DELAYS, KILL_DELAYS, (False, True), (True, False), (None, 500, 1000, 1500), H.PATHS,
+                ("events", "timers", "io")):
+            if ex and (t is not None or k is not None or se is not None):
+                continue
+            spec = {"exited": ex, "term_delay": t, "kill_delay": k, "stdout_held": held, "stdout_open": opened, "self_exit": se}
+            full.append({"path": p, "tie": tie, "spec": spec})
+        if budget == "thorough":
+            return full
+        n = 700 if budget == "quick" else 2500
+        return rng.sample(full, n)
+
+    def impl_batch(self, cases):
+        from .. import shutdown_vt
+        return shutdown_vt.run_cases(cases)
+
+    def model_line(self, case):
+        return {"m": "shutdown", "path": case["path"], "spec": case["spec"]}
+
+    def compare(self, case, o, m):
+        if _vt_tie(case["spec"]):
+            return None
+        mine = {"child": o["child"], "duration": o["duration"], "signals": o["signals"]}
+        theirs = {"child": m.get("child"), "duration": m.get("duration"), "signals": m.get("signals")}
+        if mine != theirs and len(self.mismatches) < 5:
+            self.mismatches.append({"case": case, "impl": mine, "model": theirs})
+        if mine != theirs:
+            self.nmis = getattr(self, "nmis", 0) + 1
+        return None
+
+    def oracle(self, case, o):
+        sp = case["spec"]
+        what = f"scripted child {sp} x {case['path']} (tie order {case['tie']})"
+        if o["exc"] == "unbounded" or o["duration"] is None or o["duration"] > BOUND_MS:
+            return (f"unbounded/{case['path']}", f"{what}: leaving the context took {o['duration']} virtual ms", {"duration": f"<= {BOUND_MS}"})
+        kill_works = sp.get("kill_delay") is not None and sp["kill_delay"] < 1000
+        dies_anyway = sp.get("exited") or (sp.get("term_delay") is not None and sp["term_delay"] < 2000) \
+            or (sp.get("self_exit") is not None and sp["self_exit"] < 2000)
+        if (kill_works or dies_anyway) and o["child"] != "reaped":
+            return (f"child-left-running/{case['path']}", f"{what}: the child was not waited for when the context was left "
+                    f"(signals sent: {o['signals']})", {"child": "reaped"})
+        return None
+
+    def kind(self, case, o):
+        sig = "+".join(s for _, s in o["signals"]) or "none"
+        return f"vt/{case['path']}/{sig}/{o['child']}{'/drain' if case['spec'].get('stdout_held') else ''}{'/tie' if _vt_tie(case['spec']) else ''}"
+
+    def nontrivial(self, case, o):
+        return not case["spec"].get("exited")
+
+    def shrink_candidates(self, case):
+        sp = case["spec"]
+        for k, v in (("stdout_held", False), ("stdout_open", True), ("self_exit", None), ("kill_delay", 0), ("term_delay", None)):
+            if sp.get(k) != v:
+                yield dict(case, spec=dict(sp, **{k: v}))
+        if case["tie"] != "events":
+            yield dict(case, tie="events")
+
+
+_SUPP: list = []
+
+
+def extra(ctx, tier):
+    for s in _SUPP:
+        n = getattr(s, "nmis", 0)
+        if n and tier != "search":
+            print(f"# C16 supplementary correspondence '{s.name}' differs from the model on {n} input(s) (informational): "
+                  + str(s.mismatches[0])[:300])
+        ctx.notes.append(f"supplementary correspondence '{s.name}' (signal trace, exact virtual durations): {n} difference(s)"
+                         + (": " + str(s.mismatches[0])[:600] if n else ""))
+
+
 def suites():
-    return [Scenarios()]
+    _SUPP[:] = [ExitTrace()]
+    return [Scenarios()] + _SUPP
